@@ -1097,6 +1097,7 @@ type RandReq struct {
 	GraphEvery int     `json:"graphevery"`
 	GraphOut   string  `json:"graphout"`
 	Bias       string  `json:"bias"` // "grow": mostly inserts into one table (deep trees)
+	PFail      float64 `json:"pfail"`    // share of the explicit flushes in which one page write fails (I/O error)
 	PageRT     bool    `json:"pagert"`   // C12 at store level: after every flush each page in the file decodes to what the cache held
 	OrderOut   string  `json:"orderout"` // order trace (locks, stamps, data-file and log writes) for WalOrder.tla
 }
@@ -1513,6 +1514,30 @@ func randomRun(rq RandReq) (res Result) {
 			continue
 		}
 		if rq.Cache == 0 && rng.Float64() < rq.PFlush {
+			if dirty := storage.VerifDirtyCount(w.sess.RelationService); dirty > 0 && rng.Float64() < rq.PFail {
+				// one of the page writes of this flush fails: the flush must report it, the page must stay dirty (and so
+				// resident), and nothing acknowledged may be lost when every clean page leaves the cache afterwards
+				storage.VerifFailPageWrite(1 + rng.Intn(dirty))
+				fe := storage.VerifFlush(w.sess.RelationService)
+				struck, rerr := storage.VerifRepairFile()
+				if rerr != nil {
+					res.Diverged = "cannot reopen the data file after the injected fault: " + rerr.Error()
+					return
+				}
+				if struck {
+					if fe == nil {
+						return fail("a page write failed during a flush and the flush reported success")
+					}
+					res.Stats["flushes-failed"]++
+					res.Stats["evicted-after-failed-flush"] += storage.VerifEvictClean(w.sess.RelationService)
+					ev(map[string]interface{}{"e": "pause", "what": "flush-failed"})
+					if !observe(tables) {
+						return
+					}
+				} else if fe != nil {
+					return fail("flush failed: " + fe.Error())
+				}
+			}
 			fe, probs := flushChecked(w, rq.PageRT, res.Stats)
 			if fe != nil {
 				return fail("flush failed: " + fe.Error())
